@@ -376,6 +376,8 @@ WIRE_PLANS = {
     'C14': {'order': (1, 8), 'bigframe': (2, 10)},
     # C13: a subscriber is told of every update, also the one made while it lags behind
     'C13': {'order': (1, 8)},
+    # C19: over a real socket every receipt is answered and the submitter's connection goes on
+    'C19': {'receipts': (2, 10)},
     # C07: a session, and its frame worker, ends with its last member however quickly that happens
     'C07': {'churn': (4, 40)},
     # C10: concurrent registration of the same component type names
